@@ -4,6 +4,7 @@ go 1.24
 
 require (
 	github.com/gorilla/websocket v1.5.1
+	github.com/quic-go/quic-go v0.58.0
 	github.com/sheerbytes/sheerbytes v0.0.0
 )
 
@@ -14,7 +15,6 @@ require (
 	github.com/pion/stun v0.6.1 // indirect
 	github.com/pion/transport/v2 v2.2.2 // indirect
 	github.com/pion/turn/v2 v2.1.6 // indirect
-	github.com/quic-go/quic-go v0.58.0 // indirect
 	golang.org/x/crypto v0.41.0 // indirect
 	golang.org/x/net v0.43.0 // indirect
 	golang.org/x/sys v0.35.0 // indirect
